@@ -21,11 +21,22 @@ var (
 	rtypeTokT = types.NewPointer(types.NewNamed(types.NewTypeName(0, nil, "reflectTypeToken", nil), types.NewStruct(nil, nil), nil))
 )
 
-func ctxValue() Value { return IfaceV{typ: ctxTokT, v: OpaqueV{"context"}} }
+func ctxValue() Value { return IfaceV{typ: ctxTokT, v: PtrV{}} }
 
+// ctxWithCancel: a context that is cancelled only by its cancel function (deadlines never
+// expire inside a step). State: heap object holding a Bool term constant.
 func ctxWithCancel(e *Engine, st *State, args []Value) Value {
-	e.modelsUsed["context.With* = opaque context, no-op cancel"] = true
-	return TupleV{[]Value{ctxValue(), FuncV{builtin: "noop"}}}
+	e.modelsUsed["context.With* = context cancelled only by its cancel function; deadlines never expire inside a step"] = true
+	id := st.alloc(ArrayV{[]Value{e.ts.False}}, nil)
+	// a child of a cancelled parent is cancelled
+	if len(args) > 0 {
+		if pv, ok := args[0].(IfaceV); ok && pv.typ == ctxTokT {
+			if pp := pv.v.(PtrV); pp.obj != 0 {
+				st.heap[id] = st.heap[pp.obj]
+			}
+		}
+	}
+	return TupleV{[]Value{IfaceV{typ: ctxTokT, v: PtrV{obj: id}}, FuncV{builtin: "ctxcancel", bind: []Value{PtrV{obj: id}}}}}
 }
 
 func init() {
@@ -277,11 +288,26 @@ func (e *Engine) shaMethod(st *State, recv IfaceV, method string, args []Value) 
 	return nil, false
 }
 
-func (e *Engine) ctxMethod(st *State, method string) (Value, bool) {
+func (e *Engine) ctxCancelled(st *State, recv IfaceV) bool {
+	p := recv.v.(PtrV)
+	if p.obj == 0 {
+		return false
+	}
+	return st.heap[p.obj].(ArrayV).e[0].(*Term).IsTrue()
+}
+
+func (e *Engine) ctxMethod(st *State, recv IfaceV, method string) (Value, bool) {
 	switch method {
 	case "Done":
+		if e.ctxCancelled(st, recv) {
+			id := st.alloc(ChanObj{closed: true}, types.NewChan(types.SendRecv, types.NewStruct(nil, nil)))
+			return ChanV{obj: id}, true
+		}
 		return ChanV{}, true // nil channel: never ready
 	case "Err":
+		if e.ctxCancelled(st, recv) {
+			return e.opaqueErr(e.ts.True), true
+		}
 		return IfaceV{}, true
 	case "Value":
 		return IfaceV{}, true
